@@ -40,8 +40,10 @@ def limit_signal(times, sig, start=None, stop=None):
     """
 
     # Ensure arguments are within valid range
-    check_param_range(start, 'start', (0, stop))
-    check_param_range(stop, 'stop', (start, np.inf))
+    if start is not None:
+        check_param_range(start, 'start', (0, np.inf if stop is None else stop))
+    if stop is not None:
+        check_param_range(stop, 'stop', (0 if start is None else start, np.inf))
 
     if start is not None:
         sig = sig[times >= start]
